@@ -14,7 +14,7 @@ section Counting
 variable {κ β : Type} [DecidableEq κ]
 
 /-- the number of entries of a key-by-key merged map -/
-theorem merged_length {old com new r : AMap κ β} (w0 : AMap.WF old) (w1 : AMap.WF com) (w2 : AMap.WF new)
+theorem tm_length {old com new r : AMap κ β} (w0 : AMap.WF old) (w1 : AMap.WF com) (w2 : AMap.WF new)
     (w3 : AMap.WF r)
     (hk : ∀ k, (AMap.get com k = AMap.get old k ∧ AMap.get r k = AMap.get new k) ∨
                (AMap.get new k = AMap.get old k ∧ AMap.get r k = AMap.get com k)) :
@@ -103,7 +103,7 @@ theorem sum_four (u : List κ) (f g h k : κ → Int) (hp : ∀ x ∈ u, f x + g
     omega
 
 /-- the sum over the values of a key-by-key merged map -/
-theorem merged_sum (g : β → Int) {old com new r : AMap κ β} (w0 : AMap.WF old) (w1 : AMap.WF com)
+theorem tm_sum (g : β → Int) {old com new r : AMap κ β} (w0 : AMap.WF old) (w1 : AMap.WF com)
     (w2 : AMap.WF new) (w3 : AMap.WF r)
     (hk : ∀ k, (AMap.get com k = AMap.get old k ∧ AMap.get r k = AMap.get new k) ∨
                (AMap.get new k = AMap.get old k ∧ AMap.get r k = AMap.get com k)) :
